@@ -8,6 +8,8 @@ T  ``t = E`` immediately followed by ``if t:`` / ``return t`` where ``t`` is a p
    the function  ->  ``if E:`` / ``return E``
 N  ``if not c: B else: A`` (A not an elif chain)  ->  ``if c: A else: B``
 A  ``if a: if b: X`` (neither has an else, the inner if is the only statement)  ->  ``if a and b: X``
+M  ``match s: case V: A; case V1 | V2: B; case _: C`` with value / singleton / or / wildcard patterns only (no captures,
+   optional guards) and a side-effect free subject (name or attribute chain)  ->  ``if s == V: A elif s in (V1, V2): B else: C``
 
 Line numbers of the surviving nodes are those of the original source.
 """
@@ -96,7 +98,55 @@ class _Shape(ast.NodeTransformer):
         return node
 
 
+def _simple_subject(e):
+    while isinstance(e, ast.Attribute):
+        e = e.value
+    return isinstance(e, ast.Name)
+
+
+def _pattern_test(subject, pat):
+    """Test expression equivalent to ``pat`` matching ``subject`` or None when the pattern binds / destructures."""
+    if isinstance(pat, ast.MatchValue):
+        return ast.Compare(left=subject, ops=[ast.Eq()], comparators=[pat.value])
+    if isinstance(pat, ast.MatchSingleton):
+        return ast.Compare(left=subject, ops=[ast.Is()], comparators=[ast.Constant(value=pat.value)])
+    if isinstance(pat, ast.MatchOr):
+        if all(isinstance(p, ast.MatchValue) for p in pat.patterns):
+            return ast.Compare(left=subject, ops=[ast.In()], comparators=[ast.Tuple(elts=[p.value for p in pat.patterns], ctx=ast.Load())])
+        parts = [_pattern_test(subject, p) for p in pat.patterns]
+        if any(p is None for p in parts):
+            return None
+        return ast.BoolOp(op=ast.Or(), values=parts)
+    if isinstance(pat, ast.MatchAs) and pat.pattern is None and pat.name is None:
+        return True
+    return None
+
+
+class _Match(ast.NodeTransformer):
+    def visit_Match(self, node):
+        self.generic_visit(node)
+        if not _simple_subject(node.subject):
+            return node
+        arms = []
+        for c in node.cases:
+            t = _pattern_test(node.subject, c.pattern)
+            if t is None:
+                return node
+            if c.guard is not None:
+                t = c.guard if t is True else ast.BoolOp(op=ast.And(), values=[t, c.guard])
+            arms.append((t, c.body))
+        chain = []
+        for t, body in reversed(arms):
+            if t is True:
+                chain = list(body)          # wildcard: everything after it is unreachable
+            else:
+                chain = [ast.copy_location(ast.If(test=t, body=list(body), orelse=chain), node)]
+        return chain if chain else ast.copy_location(ast.Pass(), node)
+
+
 def prenormalize(tree):
+    if hasattr(ast, 'Match'):
+        _Match().visit(tree)
     for fn in [n for n in ast.walk(tree) if isinstance(n, (ast.FunctionDef, ast.AsyncFunctionDef))]:
         loads, stores = _name_counts(fn)
         b = _Blocks(loads, stores)
